@@ -10,6 +10,7 @@ package main
 
 import (
 	"bytes"
+	"encoding/json"
 	"fmt"
 	"math/big"
 	"math/bits"
@@ -109,16 +110,16 @@ func libCase(run *sim.Run, i int) {
 	}
 	msg := r.Bytes(r.Range(0, 100))
 	type mem struct {
-		id         tss.MemberID
-		priv       tss.Scalar
-		pub        tss.Point
-		d, e       tss.Scalar
-		D, E       tss.Point
-		bf         tss.Scalar
-		pubNonce   tss.Point
-		privNonce  tss.Scalar
-		lagrange   tss.Scalar
-		sig        tss.Signature
+		id        tss.MemberID
+		priv      tss.Scalar
+		pub       tss.Point
+		d, e      tss.Scalar
+		D, E      tss.Point
+		bf        tss.Scalar
+		pubNonce  tss.Point
+		privNonce tss.Scalar
+		lagrange  tss.Scalar
+		sig       tss.Signature
 	}
 	ms := make([]*mem, len(mids))
 	var Ds, Es tss.Points
@@ -322,6 +323,39 @@ func lagrangeTable(run *sim.Run) {
 	_ = bits.OnesCount32
 }
 
+func chainCfg(r *sim.Rng, i int) tssworld.Cfg {
+	nm := r.Range(1, 8)
+	mg := uint64(0)
+	if i%8 == 7 {
+		nm, mg = r.Range(21, 25), 25 // ids above 20: generic Lagrange path on chain
+	}
+	return tssworld.Cfg{
+		NMembers: nm, Threshold: uint64(r.Range(1, nm)), MaxDESize: 8, MaxGroupSize: mg,
+		SigningPeriod: uint64(r.Range(2, 5)), MaxAttempts: 3, FeePerSigner: sdk.NewCoins(),
+		Blocks: 60, PSubmit: sim.Pick(r, []int{60, 90}), Hostile: true, ReqPerBlockPct: 50,
+	}
+}
+
+func replayMask(run *sim.Run, mask uint32) {
+	var ids []uint64
+	var mids []tss.MemberID
+	for b := 0; b < 20; b++ {
+		if mask&(1<<b) != 0 {
+			ids = append(ids, uint64(b+1))
+			mids = append(mids, tss.MemberID(b+1))
+		}
+	}
+	for _, id := range ids {
+		got, err := tss.ComputeLagrangeCoefficient(tss.MemberID(id), mids)
+		want := ref.Lagrange(id, ids)
+		if err != nil || new(big.Int).SetBytes(got).Cmp(want) != 0 {
+			run.Violation("lagrange-table", fmt.Sprintf("ComputeLagrangeCoefficient(%d,%v)=%x err=%v, reference %x", id, ids, []byte(got), err, want.Bytes()), map[string]any{"layer": "lagrange", "mask": mask})
+			return
+		}
+	}
+	run.Eval(1)
+}
+
 func main() {
 	run := sim.NewRun("C03", "exploration")
 	run.SetRule("(a) library cases: random Shamir sharing (big.Int), member ids up to 2^20, committee = random subset of size >= threshold, " +
@@ -332,24 +366,31 @@ func main() {
 	run.Assume("reference verifiers trust decred secp256k1 curve arithmetic and go-ethereum Ecrecover",
 		"'any threshold-sized committee suffices' is observed for the committees the samplers draw, not all C(n,t)")
 	if run.ReplayCase != nil {
-		// replays are handled per layer by case data: simply rerun everything with the same seed
+		var c struct {
+			Case  int    `json:"case"`
+			Layer string `json:"layer"`
+			Mask  uint32 `json:"mask"`
+		}
+		json.Unmarshal(run.ReplayCase, &c)
+		switch c.Layer {
+		case "lib":
+			libCase(run, c.Case)
+			run.Finish()
+		case "lagrange":
+			replayMask(run, c.Mask)
+			run.Finish()
+		}
+		// chain layer: RunCases below replays the single history
+		tssworld.RunCases(run, "c03", 1, chainCfg, func(h *tssworld.Hist) []tssworld.Monitor {
+			return []tssworld.Monitor{tssworld.NewSigMonitor()}
+		}, nil)
+		run.Finish()
 	}
 	nl := run.N(1500, 20000)
 	sim.Parallel(nl, 16, func(i int) { libCase(run, i) })
 	lagrangeTable(run)
 	nc := run.N(64, 600)
-	tssworld.RunCases(run, "c03", nc, func(r *sim.Rng, i int) tssworld.Cfg {
-		nm := r.Range(1, 8)
-		mg := uint64(0)
-		if i%8 == 7 {
-			nm, mg = r.Range(21, 25), 25 // ids above 20: generic Lagrange path on chain
-		}
-		return tssworld.Cfg{
-			NMembers: nm, Threshold: uint64(r.Range(1, nm)), MaxDESize: 8, MaxGroupSize: mg,
-			SigningPeriod: uint64(r.Range(2, 5)), MaxAttempts: 3, FeePerSigner: sdk.NewCoins(),
-			Blocks: 60, PSubmit: sim.Pick(r, []int{60, 90}), Hostile: true, ReqPerBlockPct: 50,
-		}
-	}, func(h *tssworld.Hist) []tssworld.Monitor {
+	tssworld.RunCases(run, "c03", nc, chainCfg, func(h *tssworld.Hist) []tssworld.Monitor {
 		return []tssworld.Monitor{tssworld.NewSigMonitor()}
 	}, nil)
 	for _, c := range []string{"lib-cases-with-id-above-20", "lib-committee-larger-than-threshold", "lagrange-pairs-compared", "group-signatures-verified",
